@@ -532,6 +532,10 @@ def gen_quat(rng):
         q = [x * s for x in q]  # not unit
     elif r < 0.5:
         q = [gen_value(rng) for _ in range(4)]
+    elif r < 0.56:
+        v = [rng.gauss(0, 1) for _ in range(3)]
+        nv = math.sqrt(sum(x * x for x in v)) or 1.0
+        q = [x / nv for x in v] + [-0.0]  # a half-turn with w = -0.0
     return q
 
 
@@ -717,6 +721,8 @@ def gen_customs(rng):
         n_ids = rng.choice([1, 2, 2, 3])
         est_dim = rng.choice([1, 2, 3])
         info_dim = rng.choice([1, 2, 3])
+        if tag == "EDGE_SE2" and rng.random() < 0.7:
+            n_ids, est_dim, info_dim = 2, 3, 3  # exactly the shape of the built-in line: the registered type must win
         out.append(make_custom(i, tag, n_ids, est_dim, info_dim, rng.random() < 0.6, rng.random() < 0.7))
     return out
 
